@@ -219,6 +219,15 @@ def analyse_decorate(ctx, repo, prop_rules):
                         return f5
                 if t == ("call", ("attr", ("attr", AT_, "header"), "is_error"), (), ()):
                     return ise
+                # the same decision written on the integer predicates (a helper that decodes the Result-Code once):
+                # is_result_code_family_Kxxx(<integer of answer.result_code_avp.data>) is the K family atom for an answer that
+                # carries a Result-Code; the presence test is true on the rows where a family is assumed
+                if isinstance(t, tuple) and t and t[0] == "call" and isinstance(t[1], tuple) and t[1][0] == "name" and len(t[2]) == 1 \
+                        and t[1][1] in ("is_result_code_family_3xxx", "is_result_code_family_4xxx", "is_result_code_family_5xxx") \
+                        and "result_code_avp" in _se.show(t[2][0]):
+                    return {"3": f3, "4": f4, "5": f5}[t[1][1][-4]]
+                if t == ("call", ("attr", AT_, "has_avp"), ("result_code_avp",), ()) and (f3 or f4 or f5):
+                    return True
                 return None
             try:
                 ps_ = _se.Interp(hook=hook, log_calls=True).run(_sd(fn.body), _se.PathState({A: AT_, R: RT_}, [], []))
@@ -246,7 +255,9 @@ def analyse_decorate(ctx, repo, prop_rules):
         ctx.count("eflag_table_rows", n_rows)
         # no other family predicate participates
         other = [call_name(c) for c in fn_calls(fn) if isinstance(c.func, ast.Name) and c.func.id.startswith("is_")
-                 and "xxx" in c.func.id and c.func.id not in ("is_3xxx_failure", "is_4xxx_failure", "is_5xxx_failure")]
+                 and "xxx" in c.func.id and c.func.id not in ("is_3xxx_failure", "is_4xxx_failure", "is_5xxx_failure",
+                                                               "is_result_code_family_3xxx", "is_result_code_family_4xxx",
+                                                               "is_result_code_family_5xxx")]
         ctx.decide(not other, "R-DOM/eflag", construct, where, "only the 3xxx/4xxx/5xxx predicates drive the E flag",
                    f"other family predicates {other} take part in the E-flag decision", key="other_families", nontrivial=False)
 
